@@ -57,6 +57,13 @@ def build(patterns):
     model = {}
     first_lang_nodes = []
     for lang, pat in patterns:
+        if lang == "alias":
+            # a second language that holds the very Caption objects of the first one (set_captions("gb", CaptionList(
+            # cs.get_captions("en")))): every caption is still re-timed exactly once
+            first = patterns[0][0]
+            caps[lang] = CaptionList(list(caps[first]))
+            model[lang] = list(model[first])
+            continue
         cl = CaptionList()
         ml = []
         for i, k in enumerate(pat):
@@ -421,6 +428,8 @@ def run_shard(d):
         if n <= 3:
             for sec in SECOND:
                 explore((("en", pat), ("fr", sec)), min(dd, 2), acc)
+            if pat:
+                explore((("en", pat), ("alias", ())), min(dd, 2), acc)
     return acc.result()
 
 
